@@ -133,6 +133,17 @@ def do_request(world, req):
     if kind == "address":
         node, path = world.node(req[1])
         return getattr(W, req[2] + "_address")(node), []
+    if kind == "temp_address":
+        # the long-lived wallet is asked about several SHORT-lived standalone nodes (parsed from strings, dropped at once)
+        from btc_hd_wallet.bip32 import PubKeyNode
+        node, path = world.node(req[1])
+        out = []
+        for j in req[3]:
+            xp = R.derive(world.rm, path + [j]).xpub(R.TPUB if world.testnet else R.XPUB)
+            tmp = PubKeyNode.parse(xp, world.testnet)
+            out.append(getattr(W, req[2] + "_address")(tmp))
+            del tmp
+        return out, []
     if kind == "node_keys":
         node, path = world.node(req[1])
         return W.node_extended_keys(node), []
@@ -200,6 +211,12 @@ def expected(world, req, pool_paths):
     if kind == "address":
         w, node = world.fresh_node(ppath(req[1]))
         return getattr(w, req[2] + "_address")(node)
+    if kind == "temp_address":
+        out = []
+        for j in req[3]:
+            w, node = world.fresh_node(ppath(req[1]) + [j])
+            out.append(getattr(w, req[2] + "_address")(node))
+        return out
     if kind == "node_keys":
         w, node = world.fresh_node(ppath(req[1]))
         return w.node_extended_keys(node)
@@ -266,9 +283,9 @@ def adapt(req, watch_only):
 def request_ok(req, pool_paths):
     """Requests must stay inside the statement's domain (depth <= 255, hardened needs nothing special here)."""
     kind = req[0]
-    if kind in ("ckd", "derive_path", "children", "concat", "gen_take"):
+    if kind in ("ckd", "derive_path", "children", "concat", "gen_take", "temp_address"):
         base = pool_paths[req[1] % len(pool_paths)]
-        extra = 1 if kind in ("ckd", "children", "gen_take") else len(req[2]) + (len(req[3]) if kind == "concat" else 0)
+        extra = 1 if kind in ("ckd", "children", "gen_take", "temp_address") else len(req[2]) + (len(req[3]) if kind == "concat" else 0)
         return len(base) + extra <= 60
     return True
 
@@ -294,6 +311,7 @@ def requests(light=False):
         st.tuples(st.just("derive_path"), p, short_path(3)),
         st.tuples(st.just("children"), p, st.sampled_from([0, 0, 1, 2, 5, H, H - 2]), st.integers(0, 4)),
         st.tuples(st.just("address"), p, st.sampled_from(KINDS)),
+        st.tuples(st.just("temp_address"), p, st.sampled_from(KINDS), st.lists(st.integers(0, 5), min_size=2, max_size=4)),
         st.tuples(st.just("node_keys"), p),
         st.tuples(st.just("xkeys"), p),
         st.tuples(st.just("str"), p),
@@ -376,7 +394,7 @@ def check_history(case, ctx):
                 tpaths = [p for _, p in twin.pool]
                 if treq is None or not request_ok(treq, tpaths):
                     continue
-                if treq[0] in ("ckd", "derive_path", "children", "address", "node_keys", "xkeys", "str", "concat", "gen_take"):
+                if treq[0] in ("ckd", "derive_path", "children", "address", "temp_address", "node_keys", "xkeys", "str", "concat", "gen_take"):
                     treq[1] = treq[1] % len(twin.pool)
                 want = norm(expected(twin, treq, tpaths))
                 st_, res = call(do_request, twin, treq)
@@ -398,7 +416,7 @@ def check_history(case, ctx):
                 req, earlier = adapt(op, wo), None
                 if req is None:
                     continue
-                if req[0] in ("ckd", "derive_path", "children", "address", "node_keys", "xkeys", "str", "concat", "gen_take"):
+                if req[0] in ("ckd", "derive_path", "children", "address", "temp_address", "node_keys", "xkeys", "str", "concat", "gen_take"):
                     req[1] = req[1] % len(world.pool)   # resolve the node now; the pool is append-only
             pool_paths = [p for _, p in world.pool]
             if not request_ok(req, pool_paths):
@@ -578,6 +596,84 @@ def check_free(case, ctx):
     judge_threads(case, world, results, errors, pool_paths, ctx, "C13/free-running")
 
 
+# ---------------------------------------------------------------------------------------------- long scans on one node
+def enum_scan(tier):
+    counts = [300, 257] if tier == "quick" else [300, 257, 520, 1030]
+    j = 0
+    for count in counts:
+        for side in ("prv", "pub"):
+            for via in ("children", "generator", "ckd-loop"):
+                j += 1
+                yield {"seed": bytes([j]) * 16, "testnet": bool(j & 1), "side": side, "via": via, "count": count,
+                       "base": [44 + H, H, H, 0] if j % 2 else [0]}
+
+
+def check_scan(case, ctx):
+    """More children than any small fixed-size structure holds are derived from ONE node object (a gap-limit scan);
+    afterwards early, middle and late indexes are asked again on that same object, and a second generator is started."""
+    wo = case["side"] == "pub"
+    try:
+        world = World(case["seed"], case["testnet"], False)
+    except R.Invalid:
+        return
+    W = world.W
+    base = list(case["base"])
+    node = W.master.derive_path(base)
+    rbase = R.derive(world.rm, base)
+    if wo:
+        from btc_hd_wallet.bip32 import PubKeyNode
+        node = PubKeyNode.parse(node.extended_public_key(), case["testnet"])
+        rbase = rbase.neuter()
+    count = case["count"]
+    first = {}
+    if case["via"] == "children":
+        for k in node.generate_children((0, count)):
+            first[k.index] = summary(k)[1:6]
+    elif case["via"] == "generator":
+        g = W.address_generator(node, W.p2wpkh_address)
+        for i in range(count):
+            pth, addr = next(g)
+            first[i] = [pth, addr]
+        g.close()
+    else:
+        for i in range(count):
+            first[i] = summary(node.ckd(i))[1:6]
+    ctx.count("__extra_evals__", count)
+    probes = sorted({0, 1, 2, 43, count - 257, count - 256, count - 255, count // 2, count - 2, count - 1} & set(range(count)))
+    mark = "M" if wo else "m"
+    for i in probes:
+        rc = R.ckd_pub(rbase, i) if wo else R.ckd_priv(rbase, i)
+        want = [rc.sec().hex(), rc.c.hex(), rc.depth, rc.index, rc.pfp.hex()]
+        ch = node.ckd(i)
+        got = summary(ch)[1:6]
+        if got != want:
+            raise Violation("C13/scan/child-differs-after-long-scan", "after %d children were derived from one %s node (%s), "
+                            "ckd(%d) on the same object gives %r, expected %r" % (count, case["side"], case["via"], i, got, want))
+        if case["via"] != "generator" and first.get(i) != want:
+            raise Violation("C13/scan/child-differs-during-long-scan", "child %d of %d derived in one scan (%s) was %r, expected %r"
+                            % (i, count, case["via"], first.get(i), want))
+        st_, deeper = call(lambda: summary(node.derive_path([i, 1]))[1:6])
+        rd = R.ckd_pub(rc, 1) if wo else R.ckd_priv(rc, 1)
+        if st_ == "exc" or deeper != [rd.sec().hex(), rd.c.hex(), rd.depth, rd.index, rd.pfp.hex()]:
+            raise Violation("C13/scan/derive_path-after-long-scan", "after the scan, derive_path([%d, 1]) on the same node gives %r" % (i, deeper))
+    g2 = W.address_generator(node, W.p2wpkh_address)
+    got = [list(next(g2)), list(g2.send(5))]
+    g2.close()
+    want = []
+    for i in (0, 5):
+        rc = R.ckd_pub(rbase, i) if wo else R.ckd_priv(rbase, i)
+        fw, fchild = world.fresh_node(base + [i])
+        want.append([R.fmt_path(base + [i], "m"), fw.p2wpkh_address(fchild)])
+    if [g_[1] for g_ in got] != [w_[1] for w_ in want]:
+        raise Violation("C13/scan/second-generator", "a second address generator on a node that already served %d children "
+                        "yields %r, expected indexes 0 and 5: %r" % (count, got, want))
+    if case["via"] == "generator":
+        for i in (0, count - 1):
+            fw, fchild = world.fresh_node(base + [i])
+            if first[i][1] != fw.p2wpkh_address(fchild):
+                raise Violation("C13/scan/generator-yield", "yield %d of a %d-address scan was %r" % (i, count, first[i]))
+
+
 def clauses():
     return [
         Clause("history", check_history,
@@ -599,6 +695,12 @@ def clauses():
                "(fine-grained interleaving inside address construction, key serialisation and script serialisation)",
                gen=gen_addr_schedule, classes=lambda c: ["threads=%d" % len(c["threads"])],
                n={"quick": 300, "thorough": 10000}, shards={"quick": 16, "thorough": 16}),
+        Clause("long-scan", check_scan,
+               "gap-limit scans: 257 / 300 (thorough: also 520 / 1030) children derived from ONE node object (private or "
+               "public; generate_children, address generator or a ckd loop), then early / middle / late indexes asked "
+               "again on that object (ckd, derive_path), and a second generator started on it; against the reference",
+               enum=enum_scan, exhaustive=True, enum_desc="2 (4) counts x {private, public} x 3 ways of scanning",
+               nontrivial=lambda c: True, shards={"quick": 12, "thorough": 16}),
         Clause("free-running", check_free,
                "same requests on free-running threads with sys.setswitchinterval(1e-6) (unscripted preemption)",
                gen=gen_schedule, nontrivial=lambda c: len(c["threads"]) >= 3,
